@@ -151,7 +151,7 @@ var bigLens = []int{75, 76, 255, 256, 65535, 65536}
 
 func TestBig(t *testing.T) {
 	pbt.Run(t, pbt.Sub[Big]{
-		Name: "big", Quick: 4800, Thorough: 120000,
+		Name: "big", Quick: 4800, Thorough: 60000,
 		Gen: func(t *rapid.T) Big {
 			c := Big{
 				Kind: rapid.SampledFrom([]string{"inscription", "inscription", "data", "false-data", "p2pkh-tail", "multisig"}).Draw(t, "kind"),
